@@ -384,3 +384,26 @@ m("c18-mutable-default-operands", ["C18"], "osaca/semantics/isa_semantics.py",
 m("c18-model-entry-mutated", ["C18", "C08"], "osaca/semantics/arch_semantics.py",
   "        instruction_form.port_uops = instruction_data.port_pressure\n",
   "        instruction_form.port_uops = instruction_data.port_pressure\n        if isinstance(instruction_data.port_pressure, list) and len(instruction_data.port_pressure) > 1 and instruction_data.latency:\n            instruction_data.latency += 1\n")
+
+# ---- C16 / C19
+m("c16-drop-tail", ["C16"], "osaca/semantics/kernel_dg.py",
+  "            workload = int((klen - 1) / num_cores) + 1", "            workload = max(1, klen // num_cores)")
+m("c16-overlap", ["C16"], "osaca/semantics/kernel_dg.py",
+  "            ends = [min((tid + 1) * workload, klen) for tid in range(num_cores)]",
+  "            ends = [min((tid + 1) * workload + 1, klen) for tid in range(num_cores)]")
+m("c16-sort-only-sequential", ["C16"], "osaca/semantics/kernel_dg.py",
+  "        loopcarried_deps.sort(reverse=True)", "        if klen < self.INSTRUCTION_THRESHOLD:\n            loopcarried_deps.sort(reverse=True)")
+m("c19-no-kill", ["C19"], "osaca/semantics/kernel_dg.py",
+  "                                os.kill(p.pid, signal.SIGKILL)\n                            p.join()",
+  "                                pass\n                            p.join()")
+m("c19-flag-never", ["C19", "C13"], "osaca/semantics/kernel_dg.py",
+  "                                # search was cut short\n                                self.timed_out = True",
+  "                                # search was cut short\n                                self.timed_out = False")
+m("c19-flag-always", ["C19"], "osaca/semantics/kernel_dg.py",
+  "                    else:\n                        # terminate running processes",
+  "                    else:\n                        self.timed_out = True\n                        # terminate running processes")
+m("c19-workers-not-joined", ["C19"], "osaca/semantics/kernel_dg.py",
+  "                            if p.is_alive():\n                                # search was cut short",
+  "                            if p.is_alive() and p is not processes[-1]:\n                                # search was cut short")
+m("c19-timeout-ignored", ["C19"], "osaca/semantics/kernel_dg.py",
+  "                    while time.time() - start_time <= timeout:", "                    while time.time() - start_time <= timeout + 30:")
